@@ -116,7 +116,8 @@ class Check(PropertyCheck):
     level_text = ("Lean theorems (client_hooks_paired, connect_outcome_exactly_one, connected_then_disconnected_once, "
                   "at_most_five_per_address, no_transports_after_return, wait_counts_callbacks, "
                   "final_wait_covers_transports, semaphore_accounts_balanced, at_most_n_per_address, "
-                  "waiters_are_tasks_of_the_address, cancelled_waiter_keeps_count, slot_keyed_on_dialled_address, only_late_opens_remain, late_marks_imply_lateOpen, early_connections_settled_at_return, final_wait_covers_early_transports) about a program-counter model of ConnectionHandler's tasks (handle_client, one "
+                  "waiters_are_tasks_of_the_address, only_late_opens_remain, late_marks_imply_lateOpen, early_connections_settled_at_return, final_wait_covers_early_transports; plus two step-local, definitional lemmas that document the model: "
+                  "cancelled_waiter_keeps_count, slot_keyed_on_dialled_address) about a program-counter model of ConnectionHandler's tasks (handle_client, one "
                   "task per open_connection, the client connection handler, hook tasks) TOGETHER WITH an explicit small-step "
                   "model of the asyncio machinery they rely on: per-task done-callback lists in registration order "
                   "(release_transport, asyncio.wait's completion callback) run only after the task finished, "
@@ -131,8 +132,8 @@ class Check(PropertyCheck):
                   "ProxyConnectionHandler running on a virtual-time asyncio loop by trace inclusion: the schedule the real "
                   "loop chose — every hook fired/returned, semaphore event, Task.cancel() on a queued task, connect, read, "
                   "server_event with its commands, writer.close, task end and every release_transport done-callback — is "
-                  "replayed in the compiled model, and model state = real state at every quiescent point, including the "
-                  "real semaphores' free-slot count and queue length, which the model predicts.")
+                  "replayed in the compiled model, and model state = real state at every quiescent point, including, PER DIALLED ADDRESS, "
+                  "the real semaphores' taken slots and queue lengths, which the model predicts.")
     level_note = ("trusted: Lean kernel; no scheduling fact about asyncio is assumed any more: the semaphore, the "
                   "done-callbacks and asyncio.wait are transcribed into the model and tied to the running interpreter's "
                   "asyncio (3.12.1) by the replay (a different asyncio.Semaphore implementation would show up as a broken "
@@ -140,10 +141,24 @@ class Check(PropertyCheck):
                   "completion in registration order — the completion callback of asyncio.wait is not observable from "
                   "outside and is placed in the replayed schedule right behind the observed release_transport callback. "
                   "handle_client itself is assumed not to be cancelled from outside; no_transports_after_return keeps its "
-                  "hypothesis (no late open) but is now accompanied by only_late_opens_remain / "
+                  "hypothesis (no late open) and is accompanied by only_late_opens_remain / "
                   "early_connections_settled_at_return, which need NO hypothesis about the layer: at return only entries of "
                   "connections opened after handle_client had collected the transports may remain (ghost mark `late`, "
-                  "whose count the model predicts and the tie compares); GC of "
+                  "whose count the model predicts and the tie compares). The clause 'no connection resources remain after "
+                  "client_disconnected has fired' is read AT THE RETURN of handle_client (between the hook and the return the "
+                  "entries exist by design: they are cancelled and waited for). The late-open branch of the oracle is lenient "
+                  "for the SCRIPTED layer only. Why it is not recorded as a finding: a connection can be opened late only by a "
+                  "layer reacting to an event that arrives after handle_client collected the transports (a hook completing, "
+                  "the completion of a cancelled connect, a server close); mitmproxy's layers have by then processed the "
+                  "client's ConnectionClosed — otherwise the client handler would still be waiting for CloseConnection and "
+                  "handle_client could not have returned; a layer blocked in a hook keeps the event queued and keeps "
+                  "handle_client from returning, and the idle timeout never fires while a hook is pending (C10) — and "
+                  "HttpLayer marks its streams errored, so a resumed stream fires the error hook instead of connecting. "
+                  "This is an argument, not a proof about the layers; it is CHECKED on the real NextLayer->HttpLayer stack "
+                  "(130 cases: each of 10 hooks held across a client disconnect at every stage of a two-request exchange, "
+                  "connect ok/refused, hooks released after the return): no asyncio.open_connection after the return, "
+                  "nothing remaining at the return or later, with NO excuse in the oracle for these cases. TLS / TCP / "
+                  "WebSocket / QUIC layers are not driven in that case kind; GC of "
                   "writers, real sockets and the event loop's selector are out of scope; the tie is differential "
                   "(systematic cancellation/disconnect injection at every step of base scenarios + random scripts).")
     technique = "Lean 4 proof (invariants over all schedules of a task system) + trace-inclusion correspondence on a virtual-time loop"
@@ -151,7 +166,10 @@ class Check(PropertyCheck):
             "server_connect hook policies that rewrite the address (many->one, swap, one->many), connect ok/refuse, hook release, "
             "peer data/EOF/reset, drain failure, write_eof failure, clock advance, cancellation of a handler task, client "
             "EOF/reset}; base scenarios with a cancellation / client disconnect injected after every step, then random "
-            "scripts. distinct = distinct script; non-trivial = at least one upstream connection attempt.")
+            "scripts; plus the REAL layer stack (NextLayer -> HttpLayer, regular mode): each of 10 hooks held while the client goes away at "
+            "every stage of a two-request exchange, connect ok/refused, hooks released after handle_client returned (no model "
+            "counterpart, judged by the oracle without the late-open excuse). distinct = distinct script; non-trivial = at least "
+            "one upstream connection attempt.")
     budget = {"quick": 500, "thorough": 20000}
     time_budget = {"quick": 25, "thorough": 500}
     fingerprints = ["mitmproxy.proxy.server:ConnectionHandler.handle_client",
@@ -272,15 +290,38 @@ class Check(PropertyCheck):
 
     def generate(self, rng, tier):
         sysgen = self._systematic(tier)
-        # interleave: systematic injection cases and random scripts
+        realgen = self._real_cases()
+        # interleave: systematic injection cases, random scripts, and (taking every second random slot until they are used up)
+        # the real-layer cases
+        n = 0
         while True:
             for _ in range(3):
                 c = next(sysgen, None)
                 if c is not None: yield c
-            yield self._random(rng)
+            n += 1
+            c = next(realgen, None) if n % 2 == 0 else None
+            yield c if c is not None else self._random(rng)
 
     # ---- implementation -----------------------------------------------------------------------
+    REAL_HOLD = ["requestheaders", "request", "responseheaders", "response", "error", "server_connect", "server_connected",
+                 "server_connect_error", "server_disconnected", "client_disconnected"]
+    REQ = "GET http://example.com/ HTTP/1.1\r\nHost: example.com\r\n\r\n"
+    RESP = "HTTP/1.1 200 OK\r\nContent-Length: 2\r\n\r\nok"
+
+    def _real_cases(self):
+        """the REAL layer stack (NextLayer -> HttpLayer) with each hook held while the client goes away at each stage"""
+        for hold in self.REAL_HOLD:
+            for conn in ("ok", "refuse"):
+                full = [["cli", self.REQ], ["conn", conn], ["srv", self.RESP], ["cli", self.REQ], ["conn", conn]]
+                for cut in range(len(full) + 1):
+                    yield {"real": {"hold": [hold], "steps": full[:cut] + [["ceof"], ["tick", 1]] + full[cut:]}}
+            yield {"real": {"hold": [hold, "request"], "steps": [["cli", self.REQ + self.REQ], ["ceof"], ["release", "request"], ["conn", "ok"]]}}
+
     def impl(self, case):
+        if "real" in case:
+            obs = E.run_real_layers(case)
+            self._last = {"lines": None}
+            return obs
         obs = E.run(case)
         lines, snaps, gidx = project(obs["trace"])
         obs["lines"] = lines
@@ -295,7 +336,7 @@ class Check(PropertyCheck):
             elif r[0] == "ev": pend = 0
             elif r[0] == "cmd" and r[1] == "open" and collected: pend += 1
             elif r[0] == "tset" and pend and r[3] == 0: nlate += 1; pend -= 1      # the open went through (no crash)
-            elif r[0] == "snap": view.append(list(r[1:6]) + [ncc, ncd, r[6], r[5], nlate])
+            elif r[0] == "snap": view.append(list(r[1:6]) + [ncc, ncd, nlate, r[8], r[7]])
         obs["snaps"] = view
         nattempts = sum(1 for l in lines for w in l.split()[-1:] if l.startswith("a ") and " ev " in l for c in w.split(",") if c.startswith("o"))
         per = [[0, 0, 0, 0] for _ in range(nattempts)]
@@ -308,6 +349,18 @@ class Check(PropertyCheck):
 
     # ---- oracle: the property sentences on the real trace -------------------------------------
     def oracle(self, case, obs):
+        if "real" in case:
+            # the real layer stack: no excuse for late opens — mitmproxy's own layers must not ask for a connection once
+            # handle_client has returned, and nothing may remain then or later
+            fails = []
+            if not obs["returned"]: return ["handle_client (real HttpLayer) did not return after the client went away"]
+            late = [r for r in obs["trace"] if r[0] == "open_connection" and r[2] == 1]
+            if late: fails.append(f"the real layer stack opened a connection after handle_client had returned: {late}")
+            if obs["at_return"].get("transports") or obs["at_return"].get("open"):
+                fails.append(f"resources remain when handle_client returned (real layers): {obs['at_return']}")
+            if obs["at_end"]["transports"] or obs["at_end"]["open"]:
+                fails.append(f"resources remain after the held hooks were released (real layers): {obs['at_end']}")
+            return fails
         fails = []
         tr = obs["trace"]
         if obs.get("exc"): fails.append(f"handle_client raised {obs['exc']}")
@@ -335,9 +388,12 @@ class Check(PropertyCheck):
         # "at most five upstream connections to the same address are open at the same time"
         for a, m in obs["max_open"].items():
             if m > 5: fails.append(f"{m} connections to {a} open at the same time")
-        # "no connection resources remain after client_disconnected has fired" (checked when handle_client returns).  The
-        # scripted layer may open a connection after handle_client has collected the transports to wait for (the lateOpen
-        # hypothesis of the Lean theorem): only what such a late OpenConnection created may remain, everything else must be gone
+        # "no connection resources remain after client_disconnected has fired" — read at the moment handle_client RETURNS
+        # (between the hook and the return, entries exist by design: they are being cancelled and waited for).
+        # SCRIPTED LAYER ONLY: the scripted layer may, on purpose, ask for a connection after handle_client has collected the
+        # transports to wait for (the lateOpen hypothesis of no_transports_after_return); only what such a late
+        # OpenConnection created may remain, everything else must be gone.  mitmproxy's own layers get no such excuse: the
+        # real-layer cases (case["real"]) fail on ANY open_connection after the return and on anything remaining.
         ar = obs["at_return"]
         late = self._late_keys(tr)
         left_t = [k for k in ar["transports"] if k not in {str(x) for x in late}]
@@ -414,6 +470,15 @@ class Check(PropertyCheck):
         assert self.oracle(case, ok1) == [], self.oracle(case, ok1)
         ok2 = obs(T[:11] + [["ev", "C", "data", "c"], ["cmd", "send", 0], ["crash", "C"]] + T[11:])
         assert self.oracle(case, ok2) == [], self.oracle(case, ok2)
+        # the real layer stack gets no excuse: a connect after the return, or anything remaining, is a failure
+        rc = {"real": {"hold": ["request"], "steps": []}}
+        good = {"real": True, "returned": True, "trace": [["hook", "request", 0], ["open_connection", "example.com", 0]],
+                "at_return": {"transports": 0, "open": 0}, "at_end": {"transports": 0, "open": 0}}
+        assert self.oracle(rc, good) == []
+        assert self.oracle(rc, dict(good, trace=[["open_connection", "example.com", 1]])), "late open by real layers not flagged"
+        assert self.oracle(rc, dict(good, at_return={"transports": 1, "open": 0})), "real layers: entry at return not flagged"
+        assert self.oracle(rc, dict(good, at_end={"transports": 0, "open": 1})), "real layers: socket at the end not flagged"
+        assert self.oracle(rc, dict(good, returned=False)), "real layers: no return not flagged"
         # a late open excuses exactly what it created
         lt = T + [["ev", "k0", "hookdone", "-"], ["cmd", "open", 7, "b"], ["tset", "k0", 7, 0], ["evend", "k0"]]
         assert self.oracle(case, obs(lt, at_return={"transports": ["7"], "open_writers": [], "pending_tasks": []})) == []
@@ -431,12 +496,15 @@ class Check(PropertyCheck):
     # ---- model tie ----------------------------------------------------------------------------
     def model_lines(self, case):
         # the lines replay the REAL trace of this case (trace inclusion); _eval_case calls impl() right before
+        if "real" in case: return None        # real-layer cases have no model counterpart (the layer is arbitrary in the model)
         return self._last["lines"]
 
     def model_obs(self, case, replies):
         stuck = next((i for i, r in enumerate(replies[:-1]) if r not in ("ok",) and len(r.split()) != 13), None)
-        # entries, open writers, client entry, client writer, holders, #cc, #cd, queued waiters, slots taken, late opens
-        qs = [[int(x) for x in (r.split()[:5] + r.split()[6:8] + r.split()[10:13])] for r in replies[:-1] if len(r.split()) == 13]
+        # entries, open writers, client entry, client writer, holders, #cc, #cd, late opens, then PER ADDRESS: queued waiters, slots taken
+        qs = [[int(x) for x in (r.split()[:5] + r.split()[6:8] + r.split()[12:13])] +
+              [[int(x) for x in r.split()[10].split(",")], [int(x) for x in r.split()[11].split(",")]]
+              for r in replies[:-1] if len(r.split()) == 13]
         qc = replies[-1]
         per = [] if qc in ("-",) else [[int(x) for x in c.split(",")[:4]] for c in qc.split(";")] if "," in qc else qc
         return {"stuck_at": stuck, "snaps": qs, "attempts": per}
@@ -445,14 +513,21 @@ class Check(PropertyCheck):
         return {"stuck_at": None, "snaps": obs["snaps"], "attempts": obs["attempts"]}
 
     def describe(self, case, obs):
+        if "real" in case: return {"case": case, "impl": {k: v for k, v in obs.items() if k != "trace"}}
         return {"case": case, "impl": {k: v for k, v in obs.items() if k not in ("trace", "lines", "snaps")}, "trace_len": len(obs["trace"])}
 
     def classify(self, case, obs):
+        if "real" in case: return json.dumps(case, sort_keys=True)
         if any(r[0] == "hook" and r[2] == "sc" for r in obs["trace"]):
             return json.dumps(case, sort_keys=True)
         return None
 
     def branches(self, case, obs):
+        if "real" in case:
+            out = ["real-layers", "real-hold-" + case["real"]["hold"][0]]
+            if any(r[0] == "hook" and r[2] == 1 for r in obs["trace"]): out.append("real-hook-after-return")
+            if any(r[0] == "open_connection" for r in obs["trace"]): out.append("real-upstream-connect")
+            return out
         tr = obs["trace"]; out = []
         kinds = {(r[0], r[2]) if r[0] in ("hook",) else (r[0],) for r in tr}
         for name, key in (("connected", ("hook", "sd")), ("connect-error", ("hook", "se")), ("sem-wait", ("semwait",)),
